@@ -33,7 +33,7 @@ Theorem step_never_mixed v s o : constructed s -> step v s o <> Err 2.
 Proof.
   intros Hc. pose proof (constructed_plates s Hc) as Hs. pose proof (constructed_uniform s Hc) as Hu.
   destruct o as [ids| | |]; cbn [step].
-  - unfold reveal_plates. destruct (forallb obs_is_zero _); [discriminate|].
+  - unfold reveal_plates. destruct (reveal_zero_guard s ids); [discriminate|].
     destruct (existsb obs_is_nan _); [discriminate|]. apply rebuild_not_mixed. now apply uniform_reveal_rows.
   - apply rebuild_not_mixed, uniform_const_mask.
   - apply rebuild_not_mixed, uniform_const_mask.
@@ -112,7 +112,7 @@ Qed.
 
 Theorem reveal_defined v s ids :
   constructed s -> (carry_reveal v = true -> mappings_valid s) ->
-  forallb obs_is_zero (revealed_values s ids) = false -> existsb obs_is_nan (revealed_values s ids) = false ->
+  reveal_zero_guard s ids = false -> existsb obs_is_nan (revealed_values s ids) = false ->
   exists s', reveal_plates v s ids = Ok s'.
 Proof.
   intros Hc Hv Hz Hn. unfold reveal_plates. rewrite Hz, Hn.
@@ -124,7 +124,7 @@ Qed.
 Theorem step_defined v s o :
   constructed s -> (carries v o = true -> mappings_valid s) ->
   match o with
-  | Reveal ids => forallb obs_is_zero (revealed_values s ids) = false /\ existsb obs_is_nan (revealed_values s ids) = false
+  | Reveal ids => reveal_zero_guard s ids = false /\ existsb obs_is_nan (revealed_values s ids) = false
   | _ => True
   end -> exists s', step v s o = Ok s'.
 Proof.
@@ -156,7 +156,7 @@ Qed.
 Theorem repaired_lifecycle_defined p sel test ops s o :
   lifecycle (carry_mappings true) p sel test ops = Ok s ->
   match o with
-  | Reveal ids => forallb obs_is_zero (revealed_values s ids) = false /\ existsb obs_is_nan (revealed_values s ids) = false
+  | Reveal ids => reveal_zero_guard s ids = false /\ existsb obs_is_nan (revealed_values s ids) = false
   | _ => True
   end -> exists s', step (carry_mappings true) s o = Ok s'.
 Proof.
